@@ -199,3 +199,78 @@ func init() {
 	}
 	pureExterns["(*regexp.Regexp).MatchString"] = true
 }
+
+// strings.Builder: the text is not modelled; writes return no error.  bytes.ToLower: a fresh
+// slice with every ASCII upper-case letter lowered.
+func init() {
+	nop := func(c *FnCtx, st *State, call *ast.CallExpr, recv *Val, args []Val) Val {
+		t := c.typeOf(call)
+		if tup, ok := t.(*types.Tuple); ok {
+			v := Val{K: KTuple}
+			for i := 0; i < tup.Len(); i++ {
+				v.F = append(v.F, c.w.zero(tup.At(i).Type()))
+			}
+			return v
+		}
+		if t == nil {
+			return Val{K: KUnit}
+		}
+		if b, ok := t.Underlying().(*types.Basic); ok && b.Info()&types.IsString != 0 {
+			return Val{K: KStr, S: c.fresh("built", "Str"), T: t}
+		}
+		return c.w.zero(t)
+	}
+	externs["(*strings.Builder).WriteString"] = nop
+	externs["(*strings.Builder).WriteByte"] = nop
+	externs["(*strings.Builder).String"] = nop
+	pureExterns["(*strings.Builder).WriteString"] = true
+	pureExterns["(*strings.Builder).WriteByte"] = true
+	pureExterns["(*strings.Builder).String"] = true
+	externs["bytes.ToLower"] = func(c *FnCtx, st *State, call *ast.CallExpr, recv *Val, args []Val) Val {
+		p := args[0]
+		out := c.makeSlice(st, types.Typ[types.Uint8], c.typeOf(call), p.ln(), p.ln(), false)
+		h := c.heapSym(st, c.elemKey(types.Typ[types.Uint8]), "Int", 2)
+		c.assume(st, fmt.Sprintf("(forall ((j Int)) (! (=> (and (<= 0 j) (< j %s)) (= (%s %s j) (ite (and (<= 65 (%s %s (+ %s j))) (<= (%s %s (+ %s j)) 90)) (+ (%s %s (+ %s j)) 32) (%s %s (+ %s j))))) :pattern ((%s %s j))))",
+			p.ln(), h, out.ref(), h, p.ref(), p.off(), h, p.ref(), p.off(), h, p.ref(), p.off(), h, p.ref(), p.off(), h, out.ref()))
+		return out
+	}
+}
+
+// regexp: QuoteMeta(s) is a pattern matching exactly the text s ("unquote" recovers it);
+// MustCompile returns a non-nil expression; FindAllIndex returns [start, end) pairs inside p.
+func init() {
+	externs["regexp.QuoteMeta"] = func(c *FnCtx, st *State, call *ast.CallExpr, recv *Val, args []Val) Val {
+		c.declare("unquote", []string{"Str"}, "Str")
+		r := c.fresh("quoted", "Str")
+		c.fact(sx("=", sx("unquote", r), args[0].S))
+		return Val{K: KStr, S: r, T: types.Typ[types.String]}
+	}
+	pureExterns["regexp.QuoteMeta"] = true
+	externs["regexp.MustCompile"] = func(c *FnCtx, st *State, call *ast.CallExpr, recv *Val, args []Val) Val {
+		t := c.typeOf(call)
+		p := c.fresh("re", "Int")
+		c.fact(sx(">", p, "0"))
+		v := Val{K: KPtr, S: p, T: t}
+		if pt, ok := t.Underlying().(*types.Pointer); ok {
+			v.Elem = pt.Elem()
+		}
+		return v
+	}
+	pureExterns["regexp.MustCompile"] = true
+	externs["(*regexp.Regexp).FindAllIndex"] = func(c *FnCtx, st *State, call *ast.CallExpr, recv *Val, args []Val) Val {
+		t := c.typeOf(call) // [][]int
+		sl := t.Underlying().(*types.Slice)
+		out := c.freshVal(t, "pairs")
+		for _, f := range c.typeFacts(out) {
+			c.assume(st, f)
+		}
+		c.bumpAlloc(st)
+		c.refsBelow(st, out, st.alloc)
+		ek := c.elemKey(sl.Elem())
+		hl := c.heapSym(st, ek+"_len", "Int", 2)
+		c.assume(st, fmt.Sprintf("(forall ((j Int)) (! (=> (and (<= %s j) (< j (+ %s %s))) (= (%s %s j) 2)) :pattern ((%s %s j))))",
+			out.off(), out.off(), out.ln(), hl, out.ref(), hl, out.ref()))
+		return out
+	}
+	pureExterns["(*regexp.Regexp).FindAllIndex"] = true
+}
